@@ -154,15 +154,30 @@ func runC05(p *Program, r *Report) {
 			nErr++
 			member := pth.HasMatching(inSet)
 			c := fmt.Sprintf("%s#error-path[%s]", cn, shortPath(pth))
-			okSticky := !member || (pathPassesAny(pth, failStores) && pathPassesAny(pth, nilTree) && pathPassesAny(pth, nilTextTree))
-			r.Check(okSticky, "C05.R1", c, pos, "a failing analysis stores the sticky error and empties both trees of the template (when it is in the set)", "a path returns an analysis error without storing it in escapeErr and emptying both parse trees")
+			// two consistent ways to fail: (A) the body could not be analysed — the trees are emptied and the
+			// memo records an error context, so callers fail as well; (B) the body was analysed without error
+			// and only the end context is not text — the analysis is committed (the body can run, sanitised,
+			// as a callee) and only the sticky error stops direct execution.
+			bodyClean := pth.HasMatching(func(name string, val bool) bool {
+				return val && strings.HasPrefix(name, "(== ") && strings.Contains(name, "escapeTree(") && strings.HasSuffix(strings.Split(name, "@")[0], ".err nil)")
+			})
+			sticky := !member || pathPassesAny(pth, failStores)
+			emptied := !member || (pathPassesAny(pth, nilTree) && pathPassesAny(pth, nilTextTree))
+			keptTree := !pathPassesAny(pth, nilTree) && !pathPassesAny(pth, nilTextTree)
 			okMemo := false
 			for _, mu := range memoErr {
 				if pth.Passes(mu) {
 					okMemo = true
 				}
 			}
-			r.Check(okMemo, "C05.R5", c+"#memo", pos, "a failing analysis leaves an error context as the template's memoised output, so callers analysed later fail too", "a failing analysis leaves the stale \"already analysed\" memo entry: a template that calls the failed one is later declared fine and executes its emptied tree")
+			modeB := bodyClean && keptTree && pathPassesAny(pth, commits) && !okMemo
+			if modeB {
+				r.Check(sticky, "C05.R1", c, pos, "the body was analysed without error and only the end context is not text: the analysis is committed and the sticky error stops direct execution", "a path returns an end-context error without storing it in escapeErr")
+				r.OK("C05.R5", c+"#memo", pos, "the memo keeps the (committed) analysis: the template remains usable as a callee")
+			} else {
+				r.Check(sticky && emptied, "C05.R1", c, pos, "a failing analysis stores the sticky error and empties both trees of the template (when it is in the set)", "a path returns an analysis error without storing it in escapeErr and emptying both parse trees (and without committing a clean body analysis)")
+				r.Check(okMemo, "C05.R5", c+"#memo", pos, "a failing analysis leaves an error context as the template's memoised output, so callers analysed later fail too", "a failing analysis leaves the stale \"already analysed\" memo entry: a template that calls the failed one is later declared fine and executes its emptied tree")
+			}
 		} else {
 			nOK++
 			member := pth.HasMatching(inSet)
